@@ -236,6 +236,60 @@ func driveRing(opt *Options) error {
 	if s, ok := opt.Extra["steps"]; ok {
 		fmt.Sscan(s, &steps)
 	}
+	// structured bursts on larger capacities: fill to the brim from every region of the index space, consume in
+	// runs whose lengths sit on and around powers of two (the zeroing helper copies in doubling steps)
+	nb := 4
+	if opt.N > 200 {
+		nb = 16
+	}
+	for t := 0; t < nb; t++ {
+		c := []int{64, 100, 257, 1000, 1300}[(t+int(opt.Seed))%5]
+		mk := newRingInt
+		if t%2 == 1 {
+			mk = newRingPtr
+		}
+		o := mk(c)
+		tw.Emit(map[string]any{"op": "New", "cap": c})
+		next := 1
+		do := func(s Step) {
+			var got Step
+			if p, pv := callPanics(func() { got = ringApply(o, s) }); p {
+				got = Step{"op": s.Str("op"), "crash": fmt.Sprint(pv)}
+			}
+			got["nz"] = o.NonZeroSlots()
+			tw.Emit(got)
+		}
+		special := []int{31, 32, 33, 63, 64, 65, 127, 128, 129, 255, 256, 257, 511, 512, 513, 1023, 1024, 1025}
+		for round := 0; round < 10; round++ {
+			// write: mostly to the brim, sometimes one past it
+			free := o.Cap() - o.Len()
+			w := free
+			if rnd.Intn(3) == 0 && free > 0 {
+				w = rnd.Intn(free + 1)
+			}
+			for i := 0; i <= w && i < free+1; i++ {
+				do(Step{"op": "Write", "v": next})
+				next++
+			}
+			do(Step{"op": "Len"})
+			// consume one run
+			n := special[rnd.Intn(len(special))]
+			if rnd.Intn(3) == 0 {
+				n = rnd.Intn(c + 2)
+			}
+			if rnd.Intn(2) == 0 {
+				do(Step{"op": "ReadN", "n": n})
+			} else {
+				do(Step{"op": "Skip", "n": n})
+			}
+			if o.Len() > 0 {
+				do(Step{"op": "At", "i": o.Len() - 1})
+				do(Step{"op": "At", "i": rnd.Intn(o.Len())})
+			}
+		}
+		do(Step{"op": "Clear"})
+		do(Step{"op": "Len"})
+	}
 	for t := 0; t < opt.N; t++ {
 		c := caps[rnd.Intn(len(caps))]
 		mk := newRingInt
